@@ -1,6 +1,6 @@
 (* Entry.v — executable entry points of the model, one per correspondence family:
    decode a case, run the model, encode the observable. *)
-From SLT Require Export Decode Runner Parser Unparse FsTrim Include Update Subst Framing.
+From SLT Require Export Decode Runner Parser Unparse FsTrim Include Update Subst Framing Partition.
 Open Scope N_scope.
 
 Definition e_event (e : event) : val :=
@@ -244,6 +244,15 @@ Definition frames_case (v : val) : val :=
 (* ---- family "request": sql -> the request text the driver writes *)
 Definition request_case (v : val) : val := VS (request_text (get_s v)).
 
+(* ---- family "partition": [count or []; id or []; [[paths matched by glob 1]; ...]] *)
+Definition partition_case (v : val) : val :=
+  let cfg := partition_config (get_opt get_n (VL (match arg 0 v with VL [] => [] | x => [x] end)))
+                              (get_opt get_n (VL (match arg 1 v with VL [] => [] | x => [x] end))) in
+  match cfg with
+  | PRejected => vtag "reject" []
+  | _ => vtag "sel" [e_strs (select_all cfg (map d_strs (get_l (arg 2 v))))]
+  end.
+
 (* family dispatcher used by the extracted runner and by the vm_compute cross-check *)
 Definition model_main (fam : str) (v : val) : val :=
   if str_eqb fam (lit "run") then run_case v
@@ -254,4 +263,5 @@ Definition model_main (fam : str) (v : val) : val :=
   else if str_eqb fam (lit "update") then update_case v
   else if str_eqb fam (lit "frames") then frames_case v
   else if str_eqb fam (lit "request") then request_case v
+  else if str_eqb fam (lit "partition") then partition_case v
   else VS (lit "unknown-family").
